@@ -41,7 +41,7 @@ Proof.
 Qed.
 Print Assumptions C10_refuted_incoherent_after_entitled_history.
 
-(* ... and four entitled histories raise internal errors (or recurse without bound). *)
+(* ... and three entitled histories raise internal errors. *)
 Theorem C10_refuted_internal_errors :
   grun 100 h_node_gone_env empty_graph h_node_gone_ops = Rer EValueGone /\
   grun 100 h_keyerror_after_root_removed_env empty_graph h_keyerror_after_root_removed_ops = Rer EKey /\
